@@ -25,7 +25,7 @@
    Each statement for the reference interpretation, for the optimised interpretation with the I64
    exclusion (parse true true, unconditional), and for the parser the correspondence check runs
    (parse_opt) under [fast_path_excludes_i64 = true] -- the transfer is C03_fast_eq_ref_fixed.
-   For the code as it is today (fx = false, finding B) the optimised half is stated on the class of
+   For the parser WITHOUT the I64 exclusion (fx = false, finding B) the optimised half is stated on the class of
    C03_fast_eq_ref_no_i64, which is proved closed under taking prefixes (C19_bin_no_i64_prefix_closed);
    outside that class the optimised parser differs from the reference one on WHOLE inputs already.
 
@@ -169,7 +169,7 @@ Theorem C19_bin_cut_in_payload_code : fast_path_excludes_i64 = true ->
 Proof. intro E. exact (trunc_gen_in_payload parse_opt (obs_code_ref E)). Qed.
 Print Assumptions C19_bin_cut_in_payload_code.
 
-(* ------------------------------------------------------------------ the code as it is (fx = false) *)
+(* ------------------------------------------------------------------ without the I64 exclusion (fx = false) *)
 (* on the class of C03_fast_eq_ref_no_i64 (the I64 id never is the next lexeme in key position or as
    first element of a container along the run on D); the class is closed under taking prefixes, so
    the hypothesis is on the whole input only *)
@@ -200,7 +200,7 @@ Theorem C19_bin_cut_in_payload_asis : forall D k s s2, i64_never_in_key_position
 Proof. exact (trunc_on_in_payload (parse false true) i64_never_in_key_position obs_asis_ref i64_never_firstn). Qed.
 Print Assumptions C19_bin_cut_in_payload_asis.
 
-(* parse_opt, whatever the generated flag fast_path_excludes_i64 says (false today) *)
+(* parse_opt, whatever the generated flag fast_path_excludes_i64 says *)
 Theorem C19_bin_trunc_code_no_i64 : forall D F k, i64_never_in_key_position D -> k <= length D -> parse_opt D = Ok F ->
   (exists e, parse_opt (firstn k D) = Err e) \/
   (exists s, runs (init D) s /\ top s /\ pos D s <= k <= pos D s + 1 /\
